@@ -66,3 +66,4 @@ Proof. intros until 6. eapply field_ids_distinct_lemma; eauto using tree_no_shad
 (* which hypotheses of file_roundtrip a generated case meets (evidence only): 1 wf + 2 tree_shaped + 4 closed *)
 Definition check_hyp (c : dataset * Z) : Z :=
   ((if wf (fst c) then 1 else 0) + (if tree_shaped (fst c) then 2 else 0) + (if closed (snd c) (fst c) then 4 else 0))%Z.
+Definition hyp_case (c : dataset * Z * owrite * oread) : Z := check_hyp (fst (fst (fst c)), snd (fst (fst c))).
